@@ -70,8 +70,9 @@ def sort_case(work, tools, rng, idx, rec, variant):
     sf = s.dir + "/sort.txt"
     open(sf, "w").write("# generated\n" + "\n".join(lines) + "\n")
     out = s.dir + "/sorted.sqfs"
-    rc, o, e = sh([tools + "/gensquashfs", "-q", "-f", "-c", "gzip", "-b", "4096", "-F", s.packfile(), "-S", sf, out], timeout=60)
-    sample = {"sort_file": lines, "default_order": default, "spec_order": [default[f - 1] for f in rec["order"]]}
+    notail = ["-T"] if variant % 4 == 3 else []          # directives compose with switches: -T must not take anything away from a sort-file line
+    rc, o, e = sh([tools + "/gensquashfs", "-q", "-f", "-c", "gzip", "-b", "4096", "-F", s.packfile(), "-S", sf] + notail + [out], timeout=60)
+    sample = {"sort_file": lines, "default_order": default, "spec_order": [default[f - 1] for f in rec["order"]], "options": notail}
     if rc:
         return ("sort-rejected", "gensquashfs rejects a valid sort file: %s" % e.decode(errors="replace")[-200:], sf, sample), sample
     img = sqfsimg.load(out)
@@ -106,7 +107,7 @@ def flags_case(work, tools, rng, comp, bs):
     sf = s.dir + "/sort.txt"
     open(sf, "w").write("0 [dont_compress] nc\n0 [dont_fragment] nf\n0 [nosparse] ns\n0 [dont_deduplicate] dd3\n")
     outs = {}
-    for tag, extra in (("base", []), ("dir", ["-S", sf]), ("T", ["-T"]), ("e", ["-e"])):
+    for tag, extra in (("base", []), ("dir", ["-S", sf]), ("T", ["-T"]), ("e", ["-e"]), ("dirT", ["-S", sf, "-T"]), ("dire", ["-S", sf, "-e"])):
         out = s.dir + "/%s.sqfs" % tag
         rc, o, e = sh([tools + "/gensquashfs", "-q", "-f", "-c", comp, "-b", str(bs), "-F", s.packfile()] + extra + [out], timeout=120)
         if rc:
@@ -137,6 +138,17 @@ def flags_case(work, tools, rng, comp, bs):
         for k in ("blocks", "frag", "sparse"):
             if base[n][k] != d[n][k]:
                 bad.append(("flag-leak", "file %s not listed in the sort file but its %s changed" % (n, k)))
+    # switches and sort-file directives compose: with -T / -e on top of the sort file every directive keeps its effect
+    for tag in ("dirT", "dire"):
+        v = outs[tag][2]
+        if any(c for (sz, c) in v["nc"]["blocks"]) or v["nc"]["frag_compressed"]:
+            bad.append(("flag-dont_compress", "sort file + %s: dont_compress file has compressed blocks" % tag[3:].replace("T", "-T").replace("e", "-e")))
+        if v["ns"]["sparse"] or any(sz == 0 for (sz, c) in v["ns"]["blocks"]):
+            bad.append(("flag-nosparse", "sort file + %s: nosparse file has sparse blocks" % tag[3:].replace("T", "-T").replace("e", "-e")))
+        if v["dd3"]["start"] == v["dd1"]["start"]:
+            bad.append(("flag-dont_deduplicate", "sort file + %s: dont_deduplicate file shares its blocks" % tag[3:].replace("T", "-T").replace("e", "-e")))
+        if v["nf"]["frag"]:
+            bad.append(("flag-dont_fragment", "sort file + %s: dont_fragment file uses a fragment" % tag[3:].replace("T", "-T").replace("e", "-e")))
     # -T: only files larger than one block lose their tail fragment
     for n, data in files.items():
         big = len(data) > bs
